@@ -331,12 +331,16 @@ def check_c09(ctx):
     mc = {"SUBS": "", "RELOADS": 2, "TOUCH": 1} if q else {"SUBS": "", "RELOADS": 2, "TOUCH": 2}
     ctx.cov["constants"]["MC_Reload"] = mc
     ctx.tlc_must_pass("Balancer", "Reload", "MC_Reload.cfg", defines=mc, timeout=2400)
-    g = {"RELOADS": 4, "TOUCH": 4, "OPS": 12, "BACKS": '"b1", "b3"' if q else '"b1", "b2", "b3"'}
-    r = ctx.tlc("Balancer", "GenReload", "Gen_Reload.cfg", mode="sim", sim_num=150 if q else 1500, sim_depth=16,
-                defines=g, timeout=1800, count=False)
-    if not r.ok or not r.cases:
-        raise vlib.MachineryError("GenReload failed: %s %s" % (r.error or r.violation, r.out[-400:]))
-    cases = r.cases
+    cases = []
+    # the successor enumeration of one reload step grows quickly with the universe: most histories use two backend
+    # identities (one of them IPv6), the thorough tier adds some over three
+    for backs, num in (('"b1", "b3"', 150),) if q else (('"b1", "b3"', 3000), ('"b1", "b2", "b3"', 120)):
+        g = {"RELOADS": 4, "TOUCH": 4, "OPS": 12, "BACKS": backs}
+        r = ctx.tlc("Balancer", "GenReload", "Gen_Reload.cfg", mode="sim", sim_num=num, sim_depth=16,
+                    defines=g, timeout=1800, count=False)
+        if not r.ok or not r.cases:
+            raise vlib.MachineryError("GenReload failed: %s %s" % (r.error or r.violation, r.out[-400:]))
+        cases += r.cases
     run_reload(ctx, cases)
     ctx.cov["rule"] = ("cases = TLC-simulated reload histories of Reload.tla (2 clusters x 2 sub-clusters x 3 backends; "
                        "adds, removes, renames = remove+add, state changes, selections); replayed through gslb.data / "
